@@ -25,9 +25,10 @@ namespace _tuple {
 		storage(const storage<UTypes...> &other)
 		: item(other.item), tail(other.tail) { }
 
-		template<typename... UTypes>
-		storage(storage<UTypes...> &&other)
-		: item(std::move(other.item)), tail(std::move(other.tail)) { }
+		// Reference elements of the source are not moved from: std::forward<U &> is an lvalue.
+		template<typename U, typename... UTypes>
+		storage(storage<U, UTypes...> &&other)
+		: item(std::forward<U>(other.item)), tail(std::move(other.tail)) { }
 
 		T item;
 		storage<Types...> tail;
@@ -145,7 +146,8 @@ namespace _tuple {
 
 	template<typename F, typename... Args, size_t... I>
 	auto apply(F functor, tuple<Args...> &&args, std::index_sequence<I...>) {
-		return functor(std::move(args.template get<I>())...);
+		// Reference elements are passed on as lvalues (Args && collapses to Args).
+		return functor(static_cast<Args &&>(args.template get<I>())...);
 	}
 
 	// Turns a set of tuple-like types into a tuple
